@@ -18,17 +18,25 @@
     * `recv i`      – the asker takes the value out of the buffer;
     * `fire i`      – `case <-time.After(timeout)` (AskOnceWithTimeout only);
     * `giveUp i`    – `close(done)`, return `(zero, ErrActorAskTimeout)`;
+    * `read i`      – an AskChannel caller that was only holding the channel starts to receive;
     * `finish i`    – after a received value: `close(ch)` (AskOnce, AskOnceWithTimeout), return it. -/
 
 namespace FpgoVerif.C13
 
-inductive Kind | once | timeout | channel
+inductive Kind | once | timeout | channel | channelLate
 deriving DecidableEq, Repr
 
 inductive Pc
   | idle | sending | waiting | fired
   | got (v : Nat) | retV (v : Nat) | retT
+  | holding          -- AskChannel returned the channel, the caller has not started to receive yet
 deriving DecidableEq, Repr
+
+/-- where an asker is once its request is in the mailbox: in its receive / select, or (AskChannel whose caller reads
+    later) merely holding the channel -/
+def afterSend : Kind → Pc
+  | .channelLate => .holding
+  | _ => .waiting
 
 structure Asker where
   kind : Kind
@@ -56,7 +64,7 @@ structure Cfg where
 
 inductive Act
   | call (i : Nat) | send (i : Nat) | take | compute | replySend | replyDone
-  | recv (i : Nat) | fire (i : Nat) | giveUp (i : Nat) | finish (i : Nat)
+  | recv (i : Nat) | fire (i : Nat) | giveUp (i : Nat) | finish (i : Nat) | read (i : Nat)
 deriving DecidableEq, Repr
 
 def upd {β} (f : Nat → β) (i : Nat) (v : β) : Nat → β := fun k => if k = i then v else f k
@@ -70,8 +78,9 @@ def step (c : Cfg) (s : St) : Act → Option St
   | .call i => if (s.asker i).pc = .idle then some (s.setPc i .sending) else none
   | .send i =>
     if (s.asker i).pc = .sending then
-      if s.mbox.length < c.mcap then some { s.setPc i .waiting with mbox := s.mbox ++ [i] }
-      else if c.mcap = 0 ∧ s.mbox = [] ∧ s.actor = .idle then some { s.setPc i .waiting with actor := .computing i }
+      if s.mbox.length < c.mcap then some { s.setPc i (afterSend (s.asker i).kind) with mbox := s.mbox ++ [i] }
+      else if c.mcap = 0 ∧ s.mbox = [] ∧ s.actor = .idle then
+        some { s.setPc i (afterSend (s.asker i).kind) with actor := .computing i }
       else none
     else none
   | .take =>
@@ -120,10 +129,11 @@ def step (c : Cfg) (s : St) : Act → Option St
     let a := s.asker i
     match a.pc with
     | .got v =>
-      if a.kind = .channel then some (s.setPc i (.retV v))
+      if a.kind = .channel ∨ a.kind = .channelLate then some (s.setPc i (.retV v))
       else if a.chClosed then some { s with panicked := true }
       else some { s with asker := upd s.asker i { a with pc := .retV v, chClosed := true } }
     | _ => none
+  | .read i => if (s.asker i).pc = .holding then some (s.setPc i .waiting) else none
 
 /-- every asker described by `spec i = (kind, payload, rcap)`, nothing sent yet -/
 def St.init (spec : Nat → Kind × Nat × Nat) : St :=
